@@ -1026,7 +1026,8 @@ class Variable(CanBehaveLikeAVariable[T]):
         elif not self._is_inferred_ and not self._predicate_type_:
             self._update_domain_and_kwargs_expression_()
             yield from self._evaluate__(sources, yield_when_false=yield_when_false)
-        elif self._child_vars_:
+        elif self._child_vars_ or self._predicate_type_:
+            # (a predicate without arguments is called once per incoming row, like any other)
             for kwargs in self._generate_combinations_for_child_vars_values_(sources):
                 for v in self._yield_from_cache_or_instantiate_new_values_(sources, kwargs):
                     # the request of THIS evaluation, not the attribute: the same predicate object can be evaluated again
